@@ -119,6 +119,18 @@ check("C08", "Three legs. (a) Compare.tla (class, type, RDATA, count) is model-c
       RESP_NOTE + " A mechanism-level model of the probing protocol (ProbeMech) is part of the growing specification.", RESP_TECH + "; TLC-enumerated cases replayed into the comparison code",
       "DESIGN.md section 7 C08")
 
+check("C18", "Interfaces.tla states which addresses of the host's table a daemon uses (selections in call order, last match wins, evaluated over whatever "
+      "the table holds); MCIface model-checks that reading against a one-pass application over all small topologies and selection sequences of every "
+      "selector kind and prints every (topology, selections) pair, which the driver replays on a real daemon. The driver family 'multihome' changes the "
+      "simulated interface table under a real daemon (address added / removed / moved, interface down / up / gone, family vanishing) interleaved with "
+      "selections, registrations (automatic and explicit addresses), a browse and traffic on every link. The TLC monitor TraceIface judges every packet "
+      "and event: egress only on enabled interface/family pairs, records of a service only where it has an address in the subnet and only with the "
+      "addresses of that link, a new browse asks on every enabled pair, new addresses are announced by services with automatic addressing, instances "
+      "whose PTR was learned on a vanished interface are reported removed, others resolved again without what was learned there, no address reported "
+      "for a disabled or vanished interface/family, nothing reported that only ever arrived on a disabled one.",
+      RESP_NOTE + " Between a change of the table and the daemon's next interface check both views are accepted (window); timing of the check itself is "
+      "C12's business.", RESP_TECH + "; TLC-enumerated (topology, selections) cases replayed into the real daemon", "DESIGN.md section 7 C18")
+
 def hooks_commits():
     try:
         out = subprocess.run(["git", "-C", "/repo", "log", "--format=%h %s"], stdout=subprocess.PIPE, text=True).stdout
